@@ -30,8 +30,11 @@ UNames == {<<la, ex>>, <<lA, ex>>, <<lb, ex>>, <<Star, ex>>,
 \* type sets: data, a CNAME, an insecure and a secure delegation, a
 \* delegation with an address at the cut itself, DS without NS (no cut),
 \* DNSKEY/CDS away from the apex (signed like anything else)
-Menu == {{T_A}, {T_TXT, T_AAAA}, {T_CNAME}, {T_NS}, {T_NS, T_DS}, {T_NS, T_A}}
-        \cup (IF Thorough THEN {{T_DS}, {T_DNSKEY, T_CDS, T_A}, {T_NS, T_DS, T_TXT}} ELSE {})
+Menu6 == {{T_A}, {T_TXT, T_AAAA}, {T_CNAME}, {T_NS}, {T_NS, T_DS}, {T_NS, T_A}}
+Menu == Menu6 \cup (IF Thorough THEN {{T_DS}, {T_DNSKEY, T_CDS, T_A}, {T_NS, T_DS, T_TXT}} ELSE {})
+\* zones of three further names (thorough tier) always contain b.ex and use
+\* the six basic type sets
+MenuFor(S) == IF Cardinality(S) >= 3 THEN Menu6 ELSE Menu
 ApexSets == <<{T_SOA, T_NS}, {T_SOA, T_NS, T_DNSKEY, T_CDS, T_CDNSKEY, T_A, T_TXT}>>
 
 Soas == <<[ttl |-> 3600, min |-> 300], [ttl |-> 100, min |-> 7200]>>
@@ -88,7 +91,8 @@ Apex == cfg.apex
 Init ==
   /\ \E S \in SUBSET UNames :
        /\ Cardinality(S) <= MaxK
-       /\ \E f \in [S -> Menu] :
+       /\ (Cardinality(S) >= 3 => <<lb, ex>> \in S)
+       /\ \E f \in [S -> MenuFor(S)] :
             /\ ZoneOk(S, f)
             /\ LET hs   == Cardinality(S) + Cardinality({n \in S : T_NS \in f[n]})
                    soa  == Soas[(hs % 2) + 1]
@@ -100,8 +104,9 @@ Init ==
                     /\ zone = z
                     /\ \E den \in Dens, mode \in Modes :
                        /\ (mode = "into" => den # "optout")
-                       \* the quick tier thins out the configurations of two-name zones
-                       /\ (Thorough \/ Cardinality(S) <= 1 \/
+                       \* the quick tier thins out the configurations of two-name zones, the
+                       \* thorough tier those of three-name zones
+                       /\ ((Thorough /\ Cardinality(S) <= 2) \/ Cardinality(S) <= 1 \/
                              (den # "none" /\ (mode = "into" => hs % 2 = 0)))
                        /\ \E per \in (IF Cardinality(S) <= 1 THEN BadPeriods ELSE {})
                                      \cup {ValidPeriods[((Cardinality(z) + hs) % 4) + 1]} :
